@@ -1136,6 +1136,20 @@ func (c c16Calc) Str(a int) string             { return "s" + itoa(a) }
 // c16Nested: method calls whose arguments are method calls, in a loop and twice in a row: every call receives its
 // own arguments (an argument buffer shared between an outer call and the calls in its arguments would not).
 func c16Nested(form int) core.Result {
+	if form >= 9 {
+		tpls := map[string]string{
+			"base":  "{% for v in seq %}{% block row %}-{% endblock %}{% endfor %}|{% for o in [1, 2] %}{% for v in seq %}{% block cell %}.{% endblock %}{% endfor %}{% endfor %}",
+			"child": "{% extends 'base' %}{% block row %}{{ v }}:{{ loop.index }}/{{ loop.length }}{{ loop.last ? '!' : ',' }}{% endblock %}{% block cell %}{{ loop.parent.index }}{{ loop.index0 }}{% endblock %}",
+			"comp":  "{% block row %}[{{ v }}:{{ loop.index }}/{{ loop.revindex }}]{% endblock %}|{% for v in seq %}{{ block('r' ~ 'ow') }}{% endfor %}",
+		}
+		name := []string{"child", "comp"}[form-9]
+		want := []string{"a:1/3,b:2/3,c:3/3!|101112202122", "[:/]|[a:1/3][b:2/2][c:3/1]"}[form-9]
+		out, err, pan := tryExec(stick.New(&stick.MemoryLoader{Templates: tpls}), name, map[string]stick.Value{"seq": []string{"a", "b", "c"}})
+		if pan != "" || err != nil || out != want {
+			return core.Violation("loop-metadata", fmt.Sprintf("%q renders %q (%v %s), want %q", tpls[name], out, err, pan, want))
+		}
+		return core.Okay(true, out)
+	}
 	if form >= 6 {
 		// attribute names written as numbers after a dot: the key is the text as written
 		m := map[string]stick.Value{"007": "a", "7": "b", "1.50": "c", "1.5": "d", "1": map[string]stick.Value{"0": "e", "50": "f"}, "12345678901234567890": "g", "0": "z"}
@@ -1306,7 +1320,7 @@ func c16Levels(tier string) []core.Level {
 			}
 		}},
 		{Name: "templates: {{ c[k] }} for every container x key; 6 templates whose method calls take method calls as arguments (in loops, repeated, as macro arguments)", Gen: func(emit func(core.Case)) {
-			for f := 0; f < 9; f++ {
+			for f := 0; f < 11; f++ {
 				emit(core.Case{Fam: "nested", N: []int{f}})
 			}
 			nc, nk := len(c16Containers()), len(c16Keys())
